@@ -97,6 +97,14 @@ def perms(n: int) -> List[Tuple[int, ...]]:
     return list(itertools.permutations(range(n)))
 
 
+class Blocked(BaseException):
+    """Raised by the wall-clock deadline of a real-pool harness path: some call of the library did not return."""
+
+
+PATH_DEADLINE_S = 120.0  # a path of these harnesses takes milliseconds to a few seconds
+_poisoned: List[str] = []
+
+
 def watchdog(prop_of: Callable[[Any], str]) -> Callable[[Callable[..., Any]], Callable[..., Any]]:
     """Decorator for harnesses running on the real pool / loop: a scheduler that spins (executes an
     unreasonable number of lines in one path) is reported as a violation instead of hanging the check."""
@@ -107,10 +115,32 @@ def watchdog(prop_of: Callable[[Any], str]) -> Callable[[Callable[..., Any]], Ca
     def deco(h: Callable[..., Any]) -> Callable[..., Any]:
         @functools.wraps(h)
         def wrapped(cfg: Any, c: Ctx) -> Any:
+            import signal
+            import threading
+
+            if _poisoned:
+                raise E.HarnessError("this worker process interrupted a blocked library call before (%s): its state is unreliable" % _poisoned[0])
             E.install_watchdog()
             E.watch(E.Budget())
+            armed = threading.current_thread() is threading.main_thread()
+            if armed:
+                def on_alarm(_sig: int, _frm: Any) -> None:
+                    raise Blocked("no return within %.0f s" % PATH_DEADLINE_S)
+
+                old_handler = signal.signal(signal.SIGALRM, on_alarm)
+                signal.setitimer(signal.ITIMER_REAL, PATH_DEADLINE_S)
             try:
                 return h(cfg, c)
+            except Blocked as e:
+                # a call that blocks for ever (a lock that is never released, a wait nobody ends) neither returns nor raises
+                import traceback
+
+                E.watch(None)
+                tb = traceback.extract_tb(e.__traceback__)
+                where = ["%s:%d %s" % (f.filename, f.lineno, f.name) for f in tb[-5:]]
+                _poisoned.append(where[-1] if where else "?")
+                c.check(False, "a library call neither returns nor raises (blocked for %.0f s)" % PATH_DEADLINE_S, prop=prop_of(cfg), data={"where": where})
+                raise E.HarnessError("blocked call without a verdict")
             except E.Spin as e:
                 E.watch(None)
                 c.check(False, "a call does not terminate (scheduler spins): %s" % e, prop=prop_of(cfg))
@@ -133,6 +163,9 @@ def watchdog(prop_of: Callable[[Any], str]) -> Callable[[Callable[..., Any]], Ca
                 c.check(False, "the library raised %r on a valid program / history" % (e,), prop=prop_of(cfg), data={"where": where})
                 raise
             finally:
+                if armed:
+                    signal.setitimer(signal.ITIMER_REAL, 0)
+                    signal.signal(signal.SIGALRM, old_handler)
                 E.watch(None)
 
         return wrapped
